@@ -179,6 +179,12 @@ def primed(h, codes, signed, n, f, **cfg):
     return x
 
 
+def _quiet(g):
+    import contextlib, io
+    with contextlib.redirect_stdout(io.StringIO()):
+        return g()
+
+
 def warm(x, extra=()):
     """apply every kind of read-only operation to x (errors ignored): whatever an implementation remembers about an object, it remembers now."""
     old_out = (x.config.op_out, x.config.op_out_like)
@@ -186,7 +192,10 @@ def warm(x, extra=()):
     for g in (lambda: ~x, lambda: x & 1, lambda: x >> 1, lambda: x << 1, lambda: x.bin(), lambda: x.hex(), lambda: x.base_repr(10),
               lambda: x.get_val(), lambda: x.astype(int), lambda: x.uraw(), lambda: x < 0, lambda: x + x, lambda: x * x,
               lambda: np.sum(x), lambda: np.cumsum(x), lambda: np.max(x), lambda: np.min(x), lambda: np.sort(x), lambda: np.transpose(x),
-              lambda: np.prod(x) if x.size * x.n_word <= 60 else None, lambda: x.like(x)) + tuple(extra):
+              lambda: np.prod(x) if x.size * x.n_word <= 60 else None, lambda: x.like(x),
+              # looking at the object: printing and describing it in every verbosity, its status, its dtype in both notations
+              lambda: str(x), lambda: repr(x), lambda: x.get_status(), lambda: x.get_status(format=str), lambda: x.get_dtype('Q'), lambda: x.get_dtype('fxp'),
+              lambda: _quiet(lambda: [x.info(verbose=v) for v in (0, 1, 2, 3)])) + tuple(extra):
         try:
             g()
         except Exception:
